@@ -34,6 +34,20 @@ def check_colouring(desc):
         return {"nontrivial": False, "labels": ["skipped"]}
     if len(sg.model_dof_entities(g, kind, kw)) == 0:
         return {"nontrivial": False, "labels": ["skipped_empty"]}
+    n_prior = 0
+    for pr in desc.get("prior", []):
+        # history: other spaces of the same kind over the same elements (different boundary-dof / truncation options) are created and
+        # coloured first on the SAME grid object; the colouring of the space under test must not depend on them
+        sdp = dict(sd)
+        sdp.update({k_: v for k_, v in pr.items() if k_ in ("ibd", "trunc")})
+        if kind in ("DP0", "DP1") or len(sg.model_dof_entities(g, kind, sg.space_kwargs(g, sdp))) == 0:
+            continue
+        try:
+            spp, _ = sg.build_space(g, sdp)
+            np.asarray(spp.color_map)
+            n_prior += 1
+        except Exception:  # noqa: BLE001  (clean rejections of option combinations are judged by C09)
+            pass
     try:
         space, _ = sg.build_space(g, sd)
     except Exception as exc:  # noqa: BLE001
@@ -85,6 +99,8 @@ def check_colouring(desc):
         labels.append(nm)
     if sd.get("sel"):
         labels.append("segment")
+    if n_prior:
+        labels.append("after_other_spaces_on_same_grid")
     return {"nontrivial": nontrivial and "shared_dofs" in labels, "labels": sorted(set(labels))}
 
 
@@ -204,6 +220,8 @@ def shards(tier, seed=1):
         for mk in ("closed", "open"):
             out.append({"check": "colouring", "kinds": grp, "meshkind": mk, "examples": ex * n, "budget_s": 200 * n})
     out.append({"check": "colouring", "kinds": ["RWG", "SNC", "P1", "BC"], "meshkind": "multitrace", "examples": 30 * n, "budget_s": 150 * n})
+    for mk in ("closed", "open"):
+        out.append({"check": "colouring", "kinds": ["P1", "RWG", "SNC", "DUAL0"], "meshkind": mk, "history": True, "examples": 60 * n, "budget_s": 150 * n})
     out.append({"check": "isolation", "examples": 8 * n, "budget_s": 240 * n})
     out.append({"check": "threads", "threads": 16, "budget_s": 600 * (1 if q else 4), "reps": 3 if q else 12, "quick": q})
     return out
@@ -239,7 +257,17 @@ def strategy(spec):
                 if spec["kinds"][0] in ("BC", "DUAL0") and mesh.get("domains", {}).get("mode") == "scatter":
                     mesh["domains"]["mode"] = "patch"
                 sd = draw(sg.space_descs(spec["kinds"]))
-            return {"mesh": mesh, "space": sd, "localised": draw(st.booleans()), "bary": draw(st.booleans())}
+            hist = bool(spec.get("history"))
+            prior = draw(st.lists(st.fixed_dictionaries({"ibd": st.booleans(), "trunc": st.booleans()}), min_size=1 if hist else 0, max_size=2))
+            if prior and sd["kind"] not in ("DP0", "DP1", "DUAL1") and (hist or draw(st.booleans())):
+                sd["ibd"] = not prior[0]["ibd"]  # same elements, different boundary-dof option than the space created first
+                if hist and draw(st.integers(0, 2)) > 0:
+                    sd["trunc"] = prior[0]["trunc"]
+                if hist and not sd.get("sel") and mk != "multitrace" and draw(st.integers(0, 3)) > 0:
+                    sd["sel"] = ["segments", [draw(st.integers(0, 3))]]
+                    if mesh.get("domains", {}).get("mode") in ("all0", "scatter") or mesh.get("domains", {}).get("n", 1) < 2:
+                        mesh["domains"]["mode"], mesh["domains"]["n"] = "patch", 2
+            return {"mesh": mesh, "space": sd, "localised": draw(st.booleans()), "bary": draw(st.booleans()), "prior": prior}
         return s()
 
     @st.composite
